@@ -129,7 +129,16 @@ def run(repo: Repo, rep: Report, tier: str) -> None:
     BUILD = f"{M_BUILDER}::FieldUnpackerCodeBlockBuilder.build"
     res = fieldblock.analyse(repo)
     rep.analysed.update({"build_paths": res.paths, "distinct_blocks": res.skeletons, "valuations": res.valuations})
+    hp = sorted(set(res.handler_problems))
+    for h in hp:
+        rep.violation("R05.13", BUILD, f"per-field conversion guarded by `{h[:160]}`",
+                      "the conversion of a field must be wrapped by exactly one catch-all handler raising InvalidFieldValue(field, type, d[field], cls): with an extra handler "
+                      "an inner error escapes as it is and names an inner element / inner type instead of the field's own input value")
+    if not hp:
+        rep.ok("R05.13", "every per-field try has exactly one catch-all handler that raises InvalidFieldValue for the field", None)
     for u in res.undecided:
+        if hp and "unknown run-time test" in u:
+            continue  # explained by R05.13
         rep.undecide("R05.1", u)
     seen = set()
     bad = [m for m in res.mismatches if m.clause == "exception"]
@@ -417,3 +426,6 @@ LEVEL_TEXT += _ADD4
 _ADD6 = ' R05.11: exception classes store their arguments verbatim. R05.12: no library exception derives from a class that generated code catches for control flow.'
 EXPLANATION += _ADD6
 LEVEL_TEXT += _ADD6
+_ADD19 = ' R05.13: every per-field try has exactly one catch-all handler raising InvalidFieldValue for that field.'
+EXPLANATION += _ADD19
+LEVEL_TEXT += _ADD19
